@@ -625,6 +625,21 @@ class List(list, base.Symbolic, pg_typing.CustomTyping):
     """Returns a repeated Lit of self."""
     return self.__mul__(n)
 
+  def __iadd__(self, other: Iterable[Any]) -> 'List':
+    """Extends current List in place (`l += other`)."""
+    self.extend(other)
+    return self
+
+  def __imul__(self, n: int) -> 'List':
+    """Repeats current List in place (`l *= n`)."""
+    if n <= 0:
+      self.clear()
+    else:
+      items = list(self.sym_values())
+      for _ in range(n - 1):
+        self.extend(items)
+    return self
+
   def copy(self) -> 'List':
     """Shallow current list."""
     return List(super().copy(), value_spec=self._value_spec)
